@@ -619,7 +619,8 @@ def conformsB (w : World) (s : Schema) : Bool :=
 /-! ### the same query object evaluated again over changing data
 
 A query object is built once and evaluated several times; between two evaluations the data is edited (attribute
-assignments with new values, new lists, other or newly created objects; objects may be dropped). The query holds
+assignments with new values, new lists, other or newly created objects; objects may be dropped) and further
+evaluations of the same query object may be started and abandoned after some results (`Edit.peek`). The query holds
 no data of its own (`Attribute._apply_mapping_` is `getattr` at evaluation time), so the model of the k-th
 evaluation is `run` on the k-th world: `runSeq` threads the world, `C11_history_independent` says the answers depend
 on the current data only. -/
@@ -631,6 +632,11 @@ inductive Edit where
   | new (o : Obj)
   /-- the last reference to object `i` is dropped (nothing reachable refers to it any more) -/
   | free (i : Nat)
+  /-- an evaluation of the SAME query object that is abandoned after `k` results (the caller peeks with `next`,
+  leaves the loop early, …; the suspended iterator is kept or dropped): the data is not touched, and the domain
+  contents are not either — a domain handed over as a one-shot generator is consumed lazily by the engine, but what
+  the variable ranges over is still everything the generator produces -/
+  | peek (k : Nat)
   deriving Repr
 
 def setField (fs : List (String × Val)) (n : AttrName) (v : Val) : List (String × Val) :=
@@ -645,6 +651,11 @@ def applyEdit (w : World) : Edit → World
   | .set i n v => { w with objs := modifyAt (fun o => { o with fields := setField o.fields n v }) w.objs i }
   | .new o => { w with objs := w.objs ++ [o] }
   | .free _ => w
+  | .peek _ => w
+
+def Edit.isPeek : Edit → Bool
+  | .peek _ => true
+  | _ => false
 
 /-- the data after each step (a step is a list of edits made between two evaluations) -/
 def worlds : World → List (List Edit) → List World
